@@ -763,4 +763,4 @@ def subs(tier, only=None):
                 rule='case = (target kind, spec term with at least one failing leaf reached); the parsed trace is compared with the failure spine of '
                      'the reference interpreter; non-trivial = the evaluation fails',
                 min_nontrivial=2000, min_outcomes=5,
-                required_tags=['dict', 'list', 'tuple', 'pipe', 'spec', 'auto', 'coalesce', 'coalesce_skip', 'coalesce_any', 'fn:syntax', 'or', 'and', 'switch', 'fn:copy', 'short', 'long', 'unicode'])]
+                required_tags=['dict', 'list', 'tuple', 'pipe', 'spec', 'auto', 'coalesce', 'coalesce_skip', 'coalesce_any', 'fn:syntax', 'fn:nested', 'fn:nestedlog', 'or', 'and', 'switch', 'fn:copy', 'short', 'long', 'unicode'])]
